@@ -72,6 +72,10 @@ type Operation struct {
 	// The commit index at the time the operation was submitted. Only applicable to
 	// linearizable and lease-based read-only operations.
 	readIndex uint64
+
+	// The position of the operation in the sequence of read-only operations submitted
+	// to the current leader. Only applicable to read-only operations.
+	sequence uint64
 }
 
 type operationManager struct {
@@ -83,6 +87,9 @@ type operationManager struct {
 
 	// A flag that indicates whether a round of heartbeats should be sent to peers to confirm leadership.
 	shouldVerifyQuorum bool
+
+	// The sequence number of the most recently submitted read-only operation.
+	readSequence uint64
 
 	// The lease for lease-based reads.
 	leaderLease *lease
@@ -100,6 +107,18 @@ func newOperationManager(leaseDuration time.Duration) *operationManager {
 func (r *operationManager) markAsVerified() {
 	for operation := range r.pendingReadOnly {
 		operation.quorumVerified = true
+	}
+	r.shouldVerifyQuorum = true
+}
+
+// markAsVerifiedThrough marks the pending read-only operations that were submitted no later
+// than the operation with the provided sequence number as verified. A round of heartbeats only
+// confirms leadership for the operations that were submitted before the round was started.
+func (r *operationManager) markAsVerifiedThrough(sequence uint64) {
+	for operation := range r.pendingReadOnly {
+		if operation.sequence <= sequence {
+			operation.quorumVerified = true
+		}
 	}
 	r.shouldVerifyQuorum = true
 }
